@@ -516,6 +516,11 @@ func main() {
 			q := i / 3
 			forced = rrDims[(q+q/len(rrDims))%len(rrDims)]
 		}
+		// WRONG JSON TYPE stratum (round 11): one claim the checks read is present with a
+		// JSON type that does not fit (array, number, object, bool; null = absent); two
+		// thirds of them on an otherwise all-correct token
+		wrongType := forced == "" && r.Chance(1, 9)
+		soloWT := wrongType && r.Chance(2, 3)
 		signer := drv.Pick(r, pool.ForAlg(alg))
 		// HMAC configuration end to end: HS* allowed, ID token MACed with a shared
 		// secret, caller-supplied key set that verifies with that secret
@@ -653,6 +658,9 @@ func main() {
 		extremeT := false
 		if forced != "" {
 			k = 1
+		}
+		if soloWT {
+			k = 0
 		}
 		for j := 0; j < k; j++ {
 			d := drv.Pick(r, dims)
@@ -962,9 +970,45 @@ func main() {
 		tags = append(tags, "payload_form="+form, fmt.Sprintf("keyset=%s", ks.Kind), fmt.Sprintf("hmac=%v", hmacCase))
 		alt := opts
 		alt.Spaces = !opts.Spaces
-		spec := tok.BuildSpec{Signer: signer, Alg: alg, Kid: kid, Claims: c, Payload: c.Payload(opts), Mut: mut, OtherKid: "k9",
-			EvilClaims: evil, EvilPayload: evil.Payload(opts), AltPayload: c.Payload(alt), Other: pool.Other(r, signer, alg)}
-		spec.PayloadInvalid = opts.InvalidNumForm() && numform != "int"
+		// the ill-typed member replaces the well-typed one in the signed bytes. Ground truth
+		// (the harness's decode oracle): null = the claim is absent; any other unfitting
+		// type = the payload does not decode as ID-token claims (MidJson) - nothing to return
+		wtTag, wtMember, wtInvalid := "none", "", false
+		pc, pevil := c, evil
+		if wrongType {
+			var form string
+			dim := drv.Pick(r, []string{"azp", "azp", "azp", "at_hash", "at_hash", "at_hash", "nonce", "nonce", "acr", "acr", "auth_time", "auth_time", "iss", "sub"})
+			wtMember, form = illTyped(r, dim, &c, nowSec)
+			pc, pevil = c, evil
+			clearClaim(&pc, dim)
+			clearClaim(&pevil, dim)
+			if form == "null" {
+				clearClaim(&c, dim) // absent is what the payload says
+				clearClaim(&evil, dim)
+			} else {
+				wtInvalid = true
+			}
+			if dim == "at_hash" {
+				withAT = true
+			}
+			wtTag = dim + "_" + form
+		}
+		tags = append(tags, "wrongtype="+wtTag, fmt.Sprintf("wt_solo=%v", soloWT))
+		wtFront := r.Bool()
+		spec := tok.BuildSpec{Signer: signer, Alg: alg, Kid: kid, Claims: c, Payload: splice(pc.Payload(opts), wtMember, wtFront), Mut: mut, OtherKid: "k9",
+			EvilClaims: evil, EvilPayload: splice(pevil.Payload(opts), wtMember, wtFront), AltPayload: splice(pc.Payload(alt), wtMember, wtFront), Other: pool.Other(r, signer, alg)}
+		// 1/3 of the single calls: verifier built by rp.NewIDTokenVerifier from an option
+		// list, configuration read back, payload with profile members, accessors read
+		viaOpts := r.Chance(1, 3)
+		var prof profile
+		if viaOpts {
+			prof = drawProfile(r, ext, nowSec)
+			mem, front := prof.members(), r.Bool()
+			spec.Payload = splice(spec.Payload, mem, front)
+			spec.EvilPayload = splice(spec.EvilPayload, mem, front)
+			spec.AltPayload = splice(spec.AltPayload, mem, front)
+		}
+		spec.PayloadInvalid = (opts.InvalidNumForm() && numform != "int") || wtInvalid
 		if spec.Other == nil {
 			spec.Other = pool.Keys[(signer.Mat+1)%8]
 		}
@@ -975,28 +1019,65 @@ func main() {
 		}
 
 		// ---- run the library
-		vv := rp.IDTokenVerifier(v.Verifier(ks.Build()))
+		var vp *rp.IDTokenVerifier
+		var optItems []optItem
+		var probes []string
+		cfgObs := ""
+		if viaOpts {
+			var otags []string
+			optItems, otags = drawOptions(r, v, ext)
+			tags = append(tags, otags...)
+			ropts := make([]rp.VerifierOption, len(optItems))
+			for x, it := range optItems {
+				ropts[x] = it.opt
+			}
+			probes = acrProbes(optItems, c.Acr, acrs[0])
+			kset := ks.Build()
+			if p := drv.Catch(func() {
+				vp = rp.NewIDTokenVerifier(issuer, client, kset, ropts...)
+				cfgObs = observeCfg(ctx, vp, probes)
+			}); p != "" {
+				vp = nil
+			}
+		} else {
+			vs := rp.IDTokenVerifier(v.Verifier(ks.Build()))
+			vp = &vs
+			tags = append(tags, "via=struct")
+		}
 		var out *oidc.IDTokenClaims
 		var err error
-		var pan string
+		pan := ""
 		t0 := time.Now().UnixNano()
-		if withAT {
-			pan = drv.Catch(func() { out, err = rp.VerifyTokens[*oidc.IDTokenClaims](ctx, at, t.Raw, &vv) })
-		} else {
-			pan = drv.Catch(func() { out, err = rp.VerifyIDToken[*oidc.IDTokenClaims](ctx, t.Raw, &vv) })
+		switch {
+		case vp == nil:
+			pan = "NewIDTokenVerifier panicked"
+		case withAT:
+			pan = drv.Catch(func() { out, err = rp.VerifyTokens[*oidc.IDTokenClaims](ctx, at, t.Raw, vp) })
+		default:
+			pan = drv.Catch(func() { out, err = rp.VerifyIDToken[*oidc.IDTokenClaims](ctx, t.Raw, vp) })
 		}
 		t1 := time.Now().UnixNano()
 		if tok.TimeView(v, mc, t0) != tok.TimeView(v, mc, t1) {
 			amb++
 			continue
 		}
-		obs := "OPanic"
+		oc, gv := "", emit.None
 		if pan == "" {
 			if out != nil {
 				cl, a := tok.FromIDToken(out)
-				obs = emit.Ctor("OOut", tok.Outcome(&cl, a, err))
+				oc = tok.Outcome(&cl, a, err)
+				if viaOpts {
+					if p := drv.Catch(func() { gv = emit.Some(gettersView(out)) }); p != "" {
+						pan = p
+					}
+				}
 			} else {
-				obs = emit.Ctor("OOut", tok.Outcome(nil, "", err))
+				oc = tok.Outcome(nil, "", err)
+				if wtInvalid && oc == "(Reject EOther)" {
+					// oidc.Time's own decode error (ill-typed auth_time) carries no json error
+					// type: any non-sentinel failure of these inputs is the decode class
+					oc = "(Reject EJson)"
+				}
 			}
 		}
 		atk := emit.None
@@ -1013,15 +1094,35 @@ func main() {
 		if mut == "payload_null" {
 			tags = append(tags, "payload=nonobject")
 		}
-		if os.Getenv("VERIF_SELFTEST") != "" && w.Len() == 7 {
-			obs = emit.Ctor("OOut", "(Reject EOther)") // harness self-test: a wrong observation must be flagged
+		if os.Getenv("VERIF_SELFTEST") != "" && w.Len() == 5 {
+			oc = "(Reject EOther)" // harness self-test: a wrong observation must be flagged
+		}
+		human := map[string]any{"token": t.Raw, "access_token": abbreviate(at), "access_token_len": len(at), "claims": c, "verifier": v}
+		if viaOpts {
+			obs := "OPanic"
+			if pan == "" {
+				obs = tok.Share(emit.Ctor("OOpt", cfgObs, oc, gv))
+			}
+			var ol []string
+			for _, it := range optItems {
+				ol = append(ol, it.coq)
+			}
+			human["options"] = ol
+			human["profile"] = prof
+			in := emit.Ctor("IOptions", emit.Str(issuer), emit.Str(client), emit.List(ol), emit.StrList(probes),
+				prof.coq(countMembers(spec.Payload)), ks.Coq(), t.Coq(), m.Coq(), atk, emit.Z(t0), emit.Z(t1))
+			w.Add(emit.Case{Input: tok.Share(in), Observed: obs, Tags: tags, Human: human})
+			continue
+		}
+		obs := "OPanic"
+		if pan == "" {
+			obs = emit.Ctor("OOut", oc)
 		}
 		in := emit.Ctor("IIDToken", v.Coq(), ks.Coq(), t.Coq(), m.Coq(), atk, emit.Z(t0), emit.Z(t1))
-		w.Add(emit.Case{Input: tok.Share(in), Observed: obs, Tags: tags,
-			Human: map[string]any{"token": t.Raw, "access_token": abbreviate(at), "access_token_len": len(at), "claims": c, "verifier": v}})
+		w.Add(emit.Case{Input: tok.Share(in), Observed: obs, Tags: tags, Human: human})
 	}
 	err := w.Close(emit.Meta{Property: "C01", Tier: cfg.Tier, Seed: cfg.Seed,
-		Rule:  "7/8 single calls, flow first: an all-correct ID token (claims with margins, really signed with a swept algorithm RS/PS/ES/EdDSA, 1/10 HS* with a static key set, key published in a remote key set) for a random verifier configuration (issuer / client id plain or with trailing slash, upper case, space, keyword, non-ASCII letter; offset 0/1s/-1s/5s/30s/5min, max iat age, max auth age, nonce nil/empty/keyword/fixed, acr list, allow-list), then 0-3 claim dimensions mutated (absent / wrong / near miss = trailing slash, case, white space, percent-encoding, Unicode case fold, NUL / keyword literal; times at -3..+3 s around each boundary on both sides of the offset and of the max ages; extreme claim times - year 1, negative NumericDates, now +- 2^63 ns, 2262, 2326, 9999, +-2^53 - for exp / iat / auth_time; a configured option multiplies the draws of its dimension), 1/8 with a signature-level mutation, 1/16 with a payload beyond 1 KiB / 4 KiB; 3/5 through rp.VerifyTokens with an access token of length 0 / 1 / 12-72 / around 1 KiB, 2 KiB, 4 KiB, 64 KiB (hex, JWT-shaped, arbitrary bytes) and at_hash correct / absent / wrong / full hash / hash of a related token (common prefix of 1 KiB or 4 KiB, one byte changed, appended / dropped byte, case, white space) / other hash / near-miss string; the digests are computed by the driver. 1/8 sequences of 2-4 calls (VerifyIDToken / VerifyTokens mixed) on ONE verifier and key set: genuinely signed family (full, other subject, sparse claims, second signer) and header.payload.signature recombinations, access tokens A0 / A1 / a relative of A0. Non-trivial = model path != 0 (anything but a ParseToken reject); distinct = distinct input term.",
+		Rule:  "7/8 single calls, flow first: an all-correct ID token (claims with margins, really signed with a swept algorithm RS/PS/ES/EdDSA, 1/10 HS* with a static key set, key published in a remote key set) for a random verifier configuration (issuer / client id plain or with trailing slash, upper case, space, keyword, non-ASCII letter; offset 0/1s/-1s/5s/30s/5min, max iat age, max auth age, nonce nil/empty/keyword/fixed, acr list, allow-list), then 0-3 claim dimensions mutated (absent / wrong / near miss = trailing slash, case, white space, percent-encoding, Unicode case fold, NUL / keyword literal; times at -3..+3 s around each boundary on both sides of the offset and of the max ages; extreme claim times - year 1, negative NumericDates, now +- 2^63 ns, 2262, 2326, 9999, +-2^53 - for exp / iat / auth_time; a configured option multiplies the draws of its dimension), 1/8 with a signature-level mutation, 1/16 with a payload beyond 1 KiB / 4 KiB; 3/5 through rp.VerifyTokens with an access token of length 0 / 1 / 12-72 / around 1 KiB, 2 KiB, 4 KiB, 64 KiB (hex, JWT-shaped, arbitrary bytes) and at_hash correct / absent / wrong / full hash / hash of a related token (common prefix of 1 KiB or 4 KiB, one byte changed, appended / dropped byte, case, white space) / other hash / near-miss string; the digests are computed by the driver. 1/8 sequences of 2-4 calls (VerifyIDToken / VerifyTokens mixed) on ONE verifier and key set: genuinely signed family (full, other subject, sparse claims, second signer) and header.payload.signature recombinations, access tokens A0 / A1 / a relative of A0. Round 11: 1/3 of the single calls (via=options) build the verifier with rp.NewIDTokenVerifier from an option list - one deciding option per setting (left out half of the time when the setting has the constructor's default), all six exported options in random order, 0-2 earlier options per setting with other / identical values that must be overridden (WithNonce(nil), WithACRVerifier(nil), WithSupportedSigningAlgorithms() included) -, read the configuration back (ACR function probed), carry standard profile members in the payload (name, given_name, family_name, preferred_username, email, email_verified as bool or string, phone_number(_verified), address, updated_at; plain / non-ASCII / long values; in front of or behind the other members) and read every accessor of the returned claims (TokenClaims getters, GetAccessTokenHash, GetSignatureAlgorithm, GetUserInfo incl. the copied Claims map). Non-trivial = model path != 0 (anything but a ParseToken reject); distinct = distinct input term.",
 		Extra: map[string]any{"clock_ambiguous": amb}})
 	if err != nil {
 		fmt.Fprintln(os.Stderr, err)
